@@ -3,7 +3,10 @@
 (* Trace validation for the 2D triangulation (C20).                        *)
 (* trace.ndjson, one line per call of triangulation.BowyerWatson:          *)
 (*  {"k":"dt","case","st","n","pts":[[x,y]..],"pos":[[x,y]..],"flat",      *)
-(*   "exact","wf","tris":[[i,j,k]..]}                                      *)
+(*   "exact","wf","tris":[[i,j,k]..],"u","v"}                              *)
+(* u, v: the real input is the lattice stretched by sqrt(u) along x and    *)
+(* sqrt(v) along y (powers of four, one of them 1); Delaunay!JudgeS judges *)
+(* circles in that metric.                                                 *)
 (* pts: the input on the judged lattice; pos: the positions (x, 0, y) of   *)
 (* the returned mesh mapped back to the lattice (exact: every coordinate   *)
 (* is the exact image of a lattice value, flat: every middle component is  *)
@@ -25,11 +28,11 @@ Init == l = 1
 Step ==
     /\ l <= Len(Trace) /\ Trace[l].k = "dt"
     /\ LET ln == Trace[l]
-           gp == GeneralPosition(ln.pts)
+           gp == GeneralPositionS(ln.pts, ln.u, ln.v)
            bad == IF ~gp THEN {}
                   ELSE IF ln.st # "OK" THEN {"C20.Returns"}
                   ELSE IF ~ln.wf THEN {"C20.UsesInput"}
-                  ELSE Judge(ln.pts, ln.pos, ln.flat, ln.exact, ln.tris)
+                  ELSE JudgeS(ln.pts, ln.pos, ln.flat, ln.exact, ln.tris, ln.u, ln.v)
        IN IF bad # {} THEN PrintT(ToJson([l |-> l, bad |-> bad]))
           ELSE IF ~gp THEN PrintT(ToJson([l |-> l, note |-> "notGP"]))
           ELSE IF ln.tris = <<>> THEN PrintT(ToJson([l |-> l, note |-> "empty"]))
